@@ -305,6 +305,16 @@ def unbind (s : Str) : Option WFN :=
   else if Gen.Cpe.cpe23Prefix.isPrefixOf s then unbindFS s
   else none
 
+/-! ### marshaling.go, wfn.go NewValue -/
+
+/-- `(*WFN).UnmarshalText(b)` (and `Scan` of a string or of bytes) on the
+    receiver `w0`: the receiver afterwards, `none` = an error is returned.
+    Empty input leaves the receiver as it is. -/
+def unmarshalText (w0 : WFN) (b : Str) : Option WFN := if b = [] then some w0 else unbind b
+
+/-- `NewValue(v)` succeeds. -/
+def newValueOk (v : Str) : Bool := validate v && !v.isEmpty
+
 /-! ### match.go -/
 
 /-- `hasWildcard` started in escape state `esc`. -/
